@@ -291,3 +291,24 @@ def describe(f, a, b):
     except Exception:
         pass
     return {"op": f[0], "args": f[1:-1], "input": inp, "go": show(a), "model": show(b)}
+
+
+def family_ops(fam, tables, seed, tier, intensify=False):
+    big = tier == "thorough" or intensify
+    if fam == "line":
+        return line_ops(seed, 1500 if big else 150)[0]
+    if fam == "other":
+        return other_ops(seed, 300 if big else 40)
+    if fam == "sweep":
+        if big:
+            return sweep_ops(tables)
+        return sweep_ops(tables, cfgs=[Cfg(), Cfg(n=True, b=True, w=True), Cfg(re="^(fld|k|p)$")])
+    if fam == "arb":
+        return arb_ops(tables, seed, 20000 if big else 1500)
+    if fam == "misc":
+        return misc_ops(tables, seed, 3000 if big else 200)
+    if fam == "text":
+        return text_ops(seed, 2400 if big else 240)
+    if fam == "stream":
+        return stream_ops(seed, 400 if big else 40)
+    raise KeyError(fam)
